@@ -209,6 +209,15 @@ void check_quiescence(int timeout_ms) {
     if (s.blocked_kind == S_RECV && !W.chq[s.blocked_obj].empty())
       sim::violation("C18/waiter-stranded-on-nonempty-channel", sim::fmt("the scheduler is idle, R%d is suspended in receive and the channel holds %zu value(s)", r, W.chq[s.blocked_obj].size()));
   }
+  for (int r = 0; r < NR; ++r) {
+    RState &s = W.rs[r];
+    if (!s.started || s.finished || s.blocked_kind != S_JOIN) continue;
+    RState &t = W.rs[s.blocked_obj];
+    // a target that has finished, or that was cancelled (a cancelled routine terminates as soon as it is scheduled, so it is gone
+    // by the time the scheduler is idle) can never resume its joiner later: the joiner must have been resumed already
+    if (t.finished || t.cancel_sent)
+      sim::violation("C18/joiner-stranded", sim::fmt("the scheduler is idle, R%d is suspended in join(R%ld) and that routine has %s", r, s.blocked_obj, t.finished ? "finished" : "been cancelled"));
+  }
   if (!W.bc_must_return.empty())
     sim::violation("C18/broadcast-waiter-not-resumed", sim::fmt("the scheduler is idle and R%d, which was waiting when the broadcast was posted, has not returned from wait()", W.bc_must_return[0]));
 }
